@@ -1,6 +1,7 @@
 """C02 - assignments are the plurality of bootstrapped nearest-centroid votes."""
 import json
 
+import hypothesis.strategies as st
 import numpy as np
 
 from pbt import gen, mapping, materialize, treemodel, refmodel
@@ -22,8 +23,17 @@ def budget(tier):
     return {'quick': 800, 'thorough': 12000}[tier]
 
 
+@st.composite
+def strategy_(draw):
+    if draw(st.integers(0, 11)) == 0:
+        # more leaves below one parent than a one-byte index can address (257-300), few cells per chunk
+        tree = draw(gen.trees(max_levels=2, max_leaves=300, min_leaves=257, mappers=False))
+        return draw(gen.map_cases(tree=tree, max_cells=4, max_iter=12, allow_flatten=True, allow_drop=True))
+    return draw(gen.map_cases(max_cells=8, max_leaves=9, max_iter=300))
+
+
 def strategy(tier):
-    return gen.map_cases(max_cells=8, max_leaves=9, max_iter=300)
+    return strategy_()
 
 
 KNOWN_TRIGGERS = common.MAP_KNOWN_TRIGGERS
@@ -83,6 +93,8 @@ def check(spec):
         classes.append('factor_1')
     if stats['runner_up_checked']:
         classes.append('runner_up_checked')
+    if len(treemodel.Tree(spec['tree']).leaves()) > 256:
+        classes.append('more_than_256_leaves')
     nontrivial = stats['split'] > 0 or stats['sub_lt1'] > 0
     return Case(nontrivial, classes, info={'node_checks': stats['decided'], 'ambiguous_nodes': stats['ambiguous'],
                                             'subsets_checked': stats['subsets']})
